@@ -110,10 +110,46 @@ struct FwdMonitor : Observer {
       stop = true;
     }
   }
+  // abstract states after each statement of a block, recomputed from the reported pre-invariant
+  std::map<int, std::vector<z_abs_t>> stmt_states;
+  const std::vector<z_abs_t> &states_of(int b) {
+    auto it = stmt_states.find(b);
+    if (it != stmt_states.end()) return it->second;
+    std::vector<z_abs_t> v;
+    try {
+      abs_tr_t tr(inv(pre, b, true));
+      z_basic_block_t &bb = B.cfg(0).get_node(p.funcs[0].blocks[b].name);
+      for (auto &st : bb) {
+        st.accept(&tr);
+        v.push_back(tr.get_abs_value());
+      }
+    } catch (crab::verif_error &e) {
+    }
+    return stmt_states.emplace(b, v).first->second;
+  }
   void assert_eval(int id, bool ok, int f, int b, int i, const CState &s) override {
     if (ok) reached_true[id]++;
     else reached_false[id]++;
+    if (stop || call_depth_guard) return;
+    // the state reaching an assertion must be inside the abstract state the checker sees there
+    const Func &fn = p.funcs[0];
+    const std::vector<z_abs_t> &ss = states_of(b);
+    if (i > 0 && (size_t)(i - 1) < ss.size() && ex && ex->block_trace.size() >= (size_t)i) {
+      for (int j = 0; j < i; ++j) {
+        std::string why;
+        GItem g = G.member(ss[j], ex->block_trace[j], vars, 1, why);
+        if (g != G_OK) {
+          ctx.violation("C01", std::string(dom.name) + "|post|" + stmt_tag(fn.blocks[b].stmts[j]) + "|" + GITEM_NAMES[g], kase,
+                        "inside block " + fn.blocks[b].name + " (before assertion #" + std::to_string(id) + "): after " + str(p, fn.blocks[b].stmts[j]) + " the state is " +
+                            state_str(p, ex->block_trace[j], vars) + " but the abstract state is " + crab_str(ss[j]) + " : " + why + "\nblock entered as " + state_str(p, entered, vars) +
+                            " with pre-invariant " + crab_str(inv(pre, b, true)) + "\nconfig: " + config + "\n" + str(p));
+          stop = true;
+          return;
+        }
+      }
+    }
   }
+  bool call_depth_guard = false;
 };
 
 } // namespace
